@@ -412,6 +412,7 @@ ModelPtr Model::clone() const
         indexStack.pop_back();
     }
     applyEquivalenceMapToModel(map, m);
+    copyEquivalenceIds(map, std::const_pointer_cast<Model>(shared_from_this()), m);
 
     return m;
 }
